@@ -42,6 +42,24 @@ type connDriver struct {
 	mu      sync.Mutex
 	gauge   map[string]*atomic.Int64
 	maxSeen map[string]int64
+	byIP    bool // sources are told apart by the connection's peer address (built-in client.ip extractor)
+}
+
+// connPeers: peer addresses as net/http reports them; every source name sN maps to a distinct host.
+var connPeers = []string{"10.0.0.1", "[fe80::1%eth0]", "10.0.0.2", "[fe80::2%eth0]", "[2001:db8::1]", "[fe80::3%wlan0]", "[::1]", "[2001:db8::2]", "192.168.1.10"}
+
+func connPeer(src string, id int) string {
+	k := 0
+	for _, ch := range src {
+		if ch >= '0' && ch <= '9' {
+			k = k*10 + int(ch-'0')
+		}
+	}
+	host := sfmt("10.9.%d.%d", k/250, k%250+1)
+	if k < len(connPeers) {
+		host = connPeers[k]
+	}
+	return sfmt("%s:%d", host, 1024+(id*7919)%60000)
 }
 
 type connDone struct {
@@ -87,7 +105,12 @@ func newConnDriver(limit int64) *connDriver {
 	})
 	// the library's own header extractor, configured with one of several legal spellings of the header name
 	connExtractorSeq++
-	ex, err := utils.NewExtractor("request.header." + []string{"X-Src", "x-src", "X-SRC", "x-Src"}[connExtractorSeq%4])
+	variable := "request.header." + []string{"X-Src", "x-src", "X-SRC", "x-Src"}[connExtractorSeq%4]
+	if connExtractorSeq%5 == 4 {
+		variable = "client.ip"
+		d.byIP = true
+	}
+	ex, err := utils.NewExtractor(variable)
 	if err != nil {
 		panic(err)
 	}
@@ -110,6 +133,9 @@ func (d *connDriver) start(id int, src string) (admitted bool, status int) {
 		req := httptest.NewRequest("GET", "http://x.test/", nil)
 		req.Header.Set("X-Src", src)
 		req.Header.Set("X-Id", sfmt("%d", id))
+		if d.byIP {
+			req.RemoteAddr = connPeer(src, id)
+		}
 		pan := false
 		func() {
 			defer func() {
